@@ -1,7 +1,8 @@
 """C01 -- unordered calls are answered by the first declared pattern that matches."""
 import collections
 from .. import cases as K
-from ..layer_a import Engine
+from ..layer_a import Engine, proj_default
+from ..tuple_part import TuplePart
 from ..runner import run_coexec, replay_coexec
 
 MODULE = "Props.C01"
@@ -89,7 +90,8 @@ def engines(tier):
 
 def run(tier, seed):
     return run_coexec("C01", tier, seed, module=MODULE, theorems=THEOREMS, gen_cases=gen_cases,
-                      nontrivial=nontrivial, rule=RULE, engines=engines(tier), stats=stats)
+                      nontrivial=nontrivial, rule=RULE, engines=engines(tier), stats=stats,
+                      parts=[TuplePart("C01", proj_default)])
 
 
 def replay(path):
